@@ -418,6 +418,30 @@ def positivity_cases(chk):
     return out
 
 
+UNEXPANDED = [("(3...)", [(7,)], {}), ("b (3...)", [(2, 7)], {}), ("(2...) (3...)", [(5, 7)], {})]
+
+
+def unexpanded_ellipsis_cases(chk):
+    """a flattened ellipsis of literal lengths '(3...)' denotes 3**k: against a dimension that is no power of 3 no assignment exists. The solve_* entry points leave the repetition count
+    of such an ellipsis undetermined and accept: finding F-unexpanded-ellipsis-unchecked (operations reject the same expression with RankError)"""
+    import einx
+    out = []
+    for desc, shapes, kw in UNEXPANDED:
+        tensors = [np.broadcast_to(np.zeros(()), s) for s in shapes]
+        for entry in ("solve_axes", "solve_shapes", "matches"):
+            o = harness.outcome(lambda: getattr(einx, entry)(desc, *tensors, **kw), 15)
+            d = {"description": desc, "shapes": [list(s) for s in shapes], "kwargs": kw, "entry": entry}
+            accepted = o[0] == "ok" and not (entry == "matches" and o[1] is False)
+            if o[0] == "exc" and o[1] not in ("einx.errors.AxisSizeError", "einx.errors.RankError"):
+                out.append(("internal", d, f"{entry} raised {o[1]}"))
+            elif accepted:
+                chk.known_finding("F-unexpanded-ellipsis-unchecked", "einx.solve_shapes / solve_axes / matches accept '(3...)' against a dimension that is not a power of 3 (the repetition count of a flattened ellipsis is left undetermined and its length unchecked)")
+                out.append(("ok", d, None))
+            else:
+                out.append(("ok", d, None))
+    return out
+
+
 def rule_exact():
     """C02.S.exact: no 32-bit casts of sizes in the solving code; lengths of flattened / concatenated axes are computed with Python ints"""
     sites, failing = [], []
@@ -527,7 +551,7 @@ def run(tier, seed):
     n = 24 if tier == "quick" else 1500
     res = [x for r in harness.pmap(_work, [(seed, i) for i in range(n)]) for x in r]
     res += large_magnitudes()
-    res += constraint_rank_sequences() + rank_value_independence() + positivity_cases(chk) + many_repetitions()
+    res += constraint_rank_sequences() + rank_value_independence() + positivity_cases(chk) + many_repetitions() + unexpanded_ellipsis_cases(chk)
     cnt = {}
     for r in res:
         cnt[r[0]] = cnt.get(r[0], 0) + 1
